@@ -68,6 +68,13 @@ def entries(curve, vk, digest, msg):
     E.append(Entry("verify.string", lambda b: vk.verify(b, msg, hashfunc=hashlib.sha256, sigdecode=util.sigdecode_string), (BadSignatureError,), lambda r: r is True or _bad()))
     E.append(Entry("verify.der", lambda b: vk.verify_digest(b, digest, sigdecode=util.sigdecode_der, allow_truncate=True), (BadSignatureError,), lambda r: r is True or _bad()))
     E.append(Entry("verify.strings", lambda b: vk.verify_digest(_split(b), digest, sigdecode=util.sigdecode_strings, allow_truncate=True), (BadSignatureError,), lambda r: r is True or _bad()))
+    # the same key after other histories: loaded from compressed bytes and lazily precomputed; loaded from DER and precomputed
+    vk_c = ecdsa.VerifyingKey.from_string(vk.to_string("compressed"), curve, hashlib.sha256)
+    vk_c.precompute(lazy=True)
+    vk_d = ecdsa.VerifyingKey.from_der(vk.to_der("hybrid"), hashlib.sha256)
+    vk_d.precompute()
+    E.append(Entry("verify.der.compressed_lazy", lambda b: vk_c.verify_digest(b, digest, sigdecode=util.sigdecode_der, allow_truncate=True), (BadSignatureError,), lambda r: r is True or _bad()))
+    E.append(Entry("verify.string.der_precomputed", lambda b: vk_d.verify(b, msg, hashfunc=hashlib.sha256, sigdecode=util.sigdecode_string), (BadSignatureError,), lambda r: r is True or _bad()))
 
     def ecdh(method, with_curve):
         def f(b):
@@ -190,8 +197,8 @@ def material(curve, rng):
         "priv_p8_v0": (R.pkcs8(tuple(curve.oid), R.ec_private_key(sk.to_string(), None, vk.to_string("uncompressed")), 0), ["sk.from_der", "ecdh.priv_der"]),
         "priv_pem": (sk.to_pem(), ["sk.from_pem", "ecdh.priv_pem"]),
         "priv_pem_p8": (sk.to_pem(format="pkcs8"), ["sk.from_pem", "ecdh.priv_pem"]),
-        "sig_raw": (rb + sb, ["sigdecode_string", "verify.string"]),
-        "sig_der": (R.enc_sig(r, s), ["sigdecode_der", "verify.der"]),
+        "sig_raw": (rb + sb, ["sigdecode_string", "verify.string", "verify.string.der_precomputed"]),
+        "sig_der": (R.enc_sig(r, s), ["sigdecode_der", "verify.der", "verify.der.compressed_lazy"]),
         "sig_strs": (b"\x00" + rb + sb, ["sigdecode_strings", "verify.strings"]),
     }
     return sk, vk, msg, digest, M
